@@ -22,11 +22,11 @@ def _is_type_call(c: ast.Call) -> bool:
 def rule_infer_thread(db: ProgramDB) -> List[Instance]:
     out = []
     for i in rule_bind_thread(db):
-        if "_child_vars_" in i.construct or i.function.endswith("Variable._generate_combinations_for_child_vars_values_") \
-                or i.function.endswith("Variable._instantiate_new_values_and_yield_results_"):
+        site = [s for s in site_model(db).sites if s.key == i.construct]
+        if site and any("_child_vars_" in o for o in site[0].origins):
             i.rule = "INFER-THREAD"
             out.append(i)
-    if len(out) < 2:
+    if len(out) < 1:
         out.append(inst("INFER-THREAD", UNDECIDED, "", "sites", "the evaluation sites of constructor arguments were not found"))
     return out
 
